@@ -1,4 +1,4 @@
-"""C07 -- import tidying never changes what a name means (R07.1-R07.14)."""
+"""C07 -- import tidying never changes what a name means (R07.1-R07.15)."""
 from __future__ import annotations
 
 import ast
@@ -45,6 +45,44 @@ def check(ctx, res) -> None:
     from .common import prefix_boundary_rule
 
     prefix_boundary_rule(ctx, res, "R07.8", ["rope.refactor.importutils.actions.AddingVisitor.visitNormalImport"])
+    _qualifier_gap_rule(ctx, res)
+
+
+def _qualifier_gap_rule(ctx, res) -> None:
+    """R07.15: dissolving `import mod` inside mod deletes `mod.` at every use -- the text from the name up to the NEXT dot.
+    That is only right when nothing but white space and line continuations stands between the name and that dot; the
+    rewrite is refused (ValueError) as soon as ANY other character is found there.  "Refuse when every character is
+    foreign" lets `return mod` + blank + `os.path` through: everything up to the dot of `os.path` is deleted."""
+    from ..cfg import CFG
+    from .common import with_private_helpers
+
+    idx = ctx.idx
+    f = idx.need_func("rope.refactor.importutils.ImportTools._rename_in_module")
+    n = 0
+    for g in with_private_helpers(idx, f):
+        cfg = CFG(g.node)
+        for nd in cfg.nodes:
+            if not (nd.kind == "stmt" and isinstance(nd.ast, ast.Raise) and "ValueError" in ast.unparse(nd.ast)):
+                continue
+            n += 1
+            gs = cfg.guards(nd.id)
+            char_test = lambda t: any(isinstance(c, ast.Call) and call_name(c) == "isspace" for c in ast.walk(t))
+            quant = [(call_name(t), pol) for t, pol in gs if isinstance(t, ast.Call) and call_name(t) in ("any", "all") and char_test(t)]
+            in_loop = any(isinstance(l, ast.For) for l in cfg.loop_guards(nd.id)) and any(char_test(t) and not isinstance(t, ast.Call) or
+                                                                                          (isinstance(t, ast.Call) and call_name(t) == "isspace") for t, pol in gs)
+            if quant:
+                ok = quant[0] == ("any", True)
+                how = f"{quant[0][0]}(...) {'holds' if quant[0][1] else 'fails'}"
+            elif in_loop:
+                ok, how = True, "a loop over the characters raises at the first foreign one"
+            else:
+                res.undecided("R07.15", f"{g.name}|gap-check#{n}", f"{g.unit.rel}:{nd.lineno}", "shape of the test that guards the refusal not recognised")
+                continue
+            res.add("R07.15", f"{g.name}|gap-check#{n}", ok, f"{g.unit.rel}:{nd.lineno}",
+                    "the rewrite is refused as soon as one character between the name and the dot is neither white space nor a backslash" if ok else
+                    f"the rewrite is refused only when {how}: a bare use of the self-imported name followed, anywhere later, by a dot (with a blank or a line "
+                    "break in between) is not refused -- everything up to that dot is deleted from the module", function=g.qualname)
+    res.floor("R07.15", "refusals in the self-import rewriter", n, 1)
 
 
 def _check_main(ctx, res) -> None:
